@@ -117,6 +117,10 @@ def generate(rng, tier):
         # the data may be held lazily (dask): chunked along extra dimensions, along axes not operated on, and
         # along operated axes that move between centre, left and right only (chunking an axis that goes to or
         # from inner / outer is refused by design, C06)
+        # the grid's dataset may have the extra dimension too, longer than the data (which is then a selection
+        # of time steps, labelled or not)
+        if any(d == "t" for d, _ in dims) and rng.random() < 0.5:
+            ctor["ds_extra"] = {"t": rng.choice([5, 3])}
         lazy = None
         if rng.random() < 0.25 and dtype != "int64":
             # (floating-point data only: a lazy INTEGER array through interp declares an integer result --
@@ -145,6 +149,8 @@ def run_impl(case):
     shape = [l for _, l in case["dims"]]
     da = xr.DataArray(np.array(case["vals"], dtype=case.get("dtype", "float64")).reshape(shape),
                       dims=[d for d, _ in case["dims"]])
+    if c.get("ds_extra") and "t" in da.dims and case.get("warmup") is not None and len(case["vals"]) % 2 == 0:
+        da = da.assign_coords(t=("t", [10.0, 20.0][:da.sizes["t"]]))        # the selection carries its own labels
     if case.get("lazy"):
         da = da.chunk(case["lazy"])
     kwargs = {}
